@@ -16,6 +16,16 @@ Inductive case :=
             (same_twice : bool) (panicked : bool)
 | LcsCase (input : list N) (impl_result : list (N * N)) (panicked : bool).
 
+(** The constants of Model/Diff.v are the ones in the source (scraped into Gen/Tables.v). *)
+Definition tab1 (l : list N) : N := hd 0%N l.
+Definition tables_okb : bool :=
+  pair_eqb N.eqb N.eqb word_r1 (tab1 DIFF_WORD_R1_LO, tab1 DIFF_WORD_R1_HI)
+  && pair_eqb N.eqb N.eqb word_r2 (tab1 DIFF_WORD_R2_LO, tab1 DIFF_WORD_R2_HI)
+  && pair_eqb N.eqb N.eqb word_r3 (tab1 DIFF_WORD_R3_LO, tab1 DIFF_WORD_R3_HI)
+  && N.eqb word_single (tab1 DIFF_WORD_SINGLE)
+  && pair_eqb N.eqb N.eqb word_r4 (tab1 DIFF_WORD_R4_LO, tab1 DIFF_WORD_R4_HI)
+  && (max_occurrences =? DIFF_MAX_OCCURRENCES).
+
 Definition tok_of (n : N) : tokenizer :=
   match n with 0%N => TokLine | 1%N => TokWord | 2%N => TokNonword | _ => TokNone end.
 Definition cmp_of (n : N) : comparator :=
@@ -134,12 +144,12 @@ Definition corrb (c : case) : bool :=
          end
   | MatchCase l r im same panicked =>
       negb panicked
-      && matching_eqb (collect_unchanged_words N.eqb (fun h => h) DIFF_MAX_OCCURRENCES l r) (nat_pairs im)
-      && matching_eqb (collect_unchanged_words N.eqb (@rev _) DIFF_MAX_OCCURRENCES l r) (nat_pairs im)
+      && matching_eqb (collect_unchanged_words N.eqb (fun h => h) max_occurrences l r) (nat_pairs im)
+      && matching_eqb (collect_unchanged_words N.eqb (@rev _) max_occurrences l r) (nat_pairs im)
   | LcsCase input res panicked =>
       negb panicked && matching_eqb (find_lcs (map N.to_nat input)) (nat_pairs res)
   end.
 
 Definition check_case (c : case) : N :=
-  verdict (corrb c) (okb c) false
+  verdict (tables_okb && corrb c) (okb c) false
           (match c with DiffCase _ _ _ _ _ _ => 1 | MatchCase _ _ _ _ _ => 2 | LcsCase _ _ _ => 3 end).
